@@ -494,8 +494,6 @@ static int vi_search(int cmd, int cnt, int *row, int *off)
 			failed = " not found";
 			break;
 		}
-		if (i + 1 < cnt && cmd == '/')
-			o += len;
 	}
 	if (!failed) {
 		*row = r;
